@@ -7,6 +7,7 @@ the static Cop.Model.Select, written by this file on every run) so that a concre
 when the translation of the current source (tools/vf/selectfacts.py) or a proof of coq/Props/C05.v breaks;
 Props/C05.v proves the wrappers equal to the definitions GENERATED from the current source.
 """
+COQCHK = ['C05']   # cones without Coquelicot / Interval: coqchk -o re-checks them in about a minute each (thorough tier)
 import json
 import re
 from fractions import Fraction
